@@ -126,3 +126,31 @@ package larking
 //@   loop 2 invariant 0 <= i && i < 10 && Buffered(b, r, g0)
 //@   loop 2 invariant forall j :: 0 <= j && j < i ==> j < len(b) && b[j] >= 128
 //@   loop 2 decreases i + 1 - len(b) assuming ReaderProgress
+
+// Brace scanner of CodecJSON.ReadNext as a fold over the stream bytes
+// [g, g+k): nesting depth, inside-string flag, escape flag after k bytes.
+//@ rec JEsc(S, g, k) Bool = k <= 0 ? false : (!JEsc(S, g, k-1) && JStr(S, g, k-1) && S[g+k-1] == 92)
+//@ rec JStr(S, g, k) Bool = k <= 0 ? false : (JEsc(S, g, k-1) ? JStr(S, g, k-1)
+//@      : (JStr(S, g, k-1) ? S[g+k-1] != 34 : S[g+k-1] == 34))
+//@ rec JDep(S, g, k) Int = k <= 0 ? 0 : JDep(S, g, k-1)
+//@      + ((!JEsc(S, g, k-1) && !JStr(S, g, k-1)) ? (S[g+k-1] == 123 ? 1 : (S[g+k-1] == 125 ? -1 : 0)) : 0)
+//@ spec JScan(S, g, i, braceCount, isString, isEscaped) = braceCount == JDep(S, g, i) && (isString <==> JStr(S, g, i)) && (isEscaped <==> JEsc(S, g, i))
+
+//@ func (CodecJSON).ReadNext serves C17 C06 C08 C09
+//@   returns (dst, n, err)
+//@   ghost g0 = rdpos(r) - len(b)
+//@   requires r != nil && Buffered(b, r, g0)
+//@   requires limit > 0
+//@   ensures [bounds] 0 <= n && n <= len(dst)
+//@   ensures [limit] n <= limit
+//@   ensures [conserve] Buffered(dst, r, g0)
+//@   ensures [frame] err == nil ==> n >= 1 && JDep(rdS(r), g0, n) == 0 && !JStr(rdS(r), g0, n-1) && !JEsc(rdS(r), g0, n-1) && rdS(r)[g0+n-1] == 125
+//@   ensures [err-nomsg] err != nil ==> n == 0
+//@   ensures [clean-eof] err == io.EOF ==> JDep(rdS(r), g0, len(dst)) == 0
+//@   oracle (n >= 0 && n <= len(dst)) && (err != io.EOF || verifJSONDepth(dst) == 0)
+//@   loop 1 invariant 0 <= i && i <= limit && i <= len(b) && Buffered(b, r, g0)
+//@   loop 1 invariant JScan(rdS(r), g0, i, braceCount, isString, isEscaped) && 0 <= braceCount && braceCount <= i
+//@   loop 1 decreases limit - i
+//@   loop 2 invariant 0 <= i && i < limit && i <= len(b) && Buffered(b, r, g0)
+//@   loop 2 invariant JScan(rdS(r), g0, i, braceCount, isString, isEscaped) && 0 <= braceCount && braceCount <= i
+//@   loop 2 decreases i + 1 - len(b) assuming ReaderProgress
